@@ -433,6 +433,20 @@ func (z *zfn) termD(v ssa.Value, d int) lin {
 		}
 		return z.atom(z.vname(x), x)
 	case *ssa.Extract:
+		if call, ok := x.Tuple.(*ssa.Call); ok && x.Index == 0 && call.Call.IsInvoke() {
+			// io.ReaderAt / io.WriterAt / io.Reader / ListerAt contract: 0 <= n <= len(p)
+			switch call.Call.Method.Name() {
+			case "ReadAt", "WriteAt", "Read", "Write", "ListAt":
+				name := z.vname(x)
+				n := z.atom(name, x)
+				if !z.seen[name+"/def"] {
+					z.seen[name+"/def"] = true
+					z.addFact(n.scale(-1), x)
+					z.addFact(leq(n, z.lenOf(call.Call.Args[0], d+1), 0), x)
+				}
+				return n
+			}
+		}
 		if call, ok := x.Tuple.(*ssa.Call); ok && x.Index == 0 && callIs(&call.Call, "io.ReadFull") {
 			name := z.vname(x)
 			n := z.atom(name, x)
